@@ -212,6 +212,38 @@ def run(rep, tier):
                   'memset covers V%+d tokens with %s; allocation has V%+d' % ((z or (0, 0))[1], tab.const_of(memset['c'][2]), alloc[1]))
 
     # ---- R15.5 every token text is unescaped exactly once on its way into an atom / a key
+    lambdas = {}
+    for n in fj.walk():
+        if n['k'] == 'DeclStmt':
+            for d in n.get('decls', []):
+                if 'init' in d:
+                    le = [x for x in sub(d['init']) if x['k'] == 'LambdaExpr']
+                    if le:
+                        lambdas[d['lid']] = le[0]
+
+    def unescapes(st, depth=0):
+        """applications of jsonUnescape when st is executed: direct calls, plus those inside a local lambda or a helper
+        with a body that st calls (the definition of a lambda executes nothing)"""
+        out = []
+        skip = set()
+        for x in sub(st):
+            if x['k'] == 'LambdaExpr':
+                skip |= {y['id'] for y in sub(x)}
+        for x in sub(st):
+            if x['id'] in skip:
+                continue
+            q = x.get('callee', {}).get('q', '')
+            if q.endswith('jsonUnescape'):
+                out.append(x)
+            elif x['k'] == 'CXXOperatorCallExpr' and x.get('op') == '()' and len(x.get('c', [])) > 1 and depth < 2:
+                for y in sub(x['c'][1]):
+                    if y['k'] == 'DeclRefExpr' and y.get('ref', {}).get('lid') in lambdas:
+                        out += unescapes(lambdas[y['ref']['lid']]['c'][-1], depth + 1)
+            elif x['k'] in ('CallExpr', 'CXXMemberCallExpr') and x.get('callee', {}).get('m') in fb.funcs and depth < 2 and q != 'uscxml::Data::fromJSON':
+                hf = fb.funcs[x['callee']['m']]
+                if hf.file == fj.file and hf.d.get('body') is not None:
+                    out += unescapes(hf.d['body'], depth + 1)
+        return out
     sws = [n for n in fj.walk() if n['k'] == 'SwitchStmt']
     if not sws:
         raise AnalysisBroken('R15.5: token-type switch not found in Data::fromJSON')
@@ -225,8 +257,9 @@ def run(rep, tier):
         sets_atom = any(s_['k'] == 'MemberExpr' and s_['ref'].get('name') == 'atom' for st in a['eff'] for s_ in sub(st))
         if not sets_atom:
             continue
-        calls = [s_ for st in a['stmts'] for s_ in sub(st) if s_.get('callee', {}).get('q', '').endswith('jsonUnescape')]
+        calls = [x for st in a['stmts'] for x in unescapes(st)]
         if 'JSMN_PRIMITIVE' in [nm for nm in a['names'] if nm]:
             rep.check(len(calls) == 1, 'R15.5', 'fromJSON|value unescaped once', locstr(a['node']), 'the value arm applies jsonUnescape %d time(s) to the token text before storing it as atom (a second pass turns \\\\n into a newline)' % len(calls))
-    keycalls = [n for n in fj.walk() if n.get('callee', {}).get('q', '').endswith('jsonUnescape') and any(a_['k'] == 'IfStmt' and any(x['k'] == 'DeclRefExpr' and x['ref'].get('name') == 'JSMN_OBJECT' for x in sub(a_['c'][0])) for a_ in fj.ancestors(n))]
+    keyifs = [n for n in fj.walk() if n['k'] == 'IfStmt' and any(x['k'] == 'DeclRefExpr' and x['ref'].get('name') == 'JSMN_OBJECT' for x in sub(n['c'][0]))]
+    keycalls = [x for n in keyifs for st in n['c'][1:] for x in unescapes(st)]
     rep.check(len(keycalls) == 1, 'R15.5', 'fromJSON|key unescaped once', fj.where(), 'the key path applies jsonUnescape %d time(s)' % len(keycalls))
